@@ -234,6 +234,18 @@ def run(ctx):
             ctx.violation("one_sphere_cluster", {"meth": meth, "defect": d})
         else:
             ctx.trace_ok()
+        # ... and with the radial field component switched on in both solvers (near field, oblique light)
+        near = detector_points(x=np.array([0.3, 1.7, 2.9, 0.9]), y=np.array([0.2, 2.4, 0.8, 3.1]), z=6.0)
+        kwr = dict(medium_index=1.33, illum_wavelen=0.66, illum_polarization=(math.cos(0.4), math.sin(0.4)))
+        a = calc_field(near, Spheres([s1]), theory=Multisphere(meth=meth, compute_escat_radial=True, **tight), **kwr).values
+        b = calc_field(near, s1, theory=Mie(True, True), **kwr).values
+        d = quant.reldiff(a, b)
+        ctx.notes.setdefault("one_sphere_radial_defect", []).append(d)
+        ctx.case(("one_sphere_radial", meth))
+        if d > 1e-4:
+            ctx.violation("one_sphere_cluster/radial_component", {"meth": meth, "defect": d})
+        else:
+            ctx.trace_ok()
     ctx.exhaustive = not quick
 
 
